@@ -165,6 +165,114 @@ pub fn load_known(property: &str) -> Vec<KnownFinding> {
 }
 
 // ---------------------------------------------------------------------------------------------
+// byte decoder for the libFuzzer targets
+
+/// Fuzzer bytes -> structured choices (hand-written; an exhausted input yields zeros). proptest's
+/// pass-through RNG cannot serve here: on a zero stream rand's rejection sampling never terminates
+/// and every flat_map halves the stream.
+pub struct FuzzInput<'a> {
+    data: &'a [u8],
+    pos: usize,
+}
+
+impl<'a> FuzzInput<'a> {
+    pub fn new(data: &'a [u8]) -> Self {
+        FuzzInput { data, pos: 0 }
+    }
+    pub fn empty(&self) -> bool {
+        self.pos >= self.data.len()
+    }
+    pub fn u8(&mut self) -> u8 {
+        let b = self.data.get(self.pos).copied().unwrap_or(0);
+        self.pos += 1;
+        b
+    }
+    pub fn u16(&mut self) -> u16 {
+        u16::from_le_bytes([self.u8(), self.u8()])
+    }
+    pub fn u32(&mut self) -> u32 {
+        u32::from_le_bytes([self.u8(), self.u8(), self.u8(), self.u8()])
+    }
+    pub fn u64(&mut self) -> u64 {
+        (self.u32() as u64) << 32 | self.u32() as u64
+    }
+    pub fn bool(&mut self) -> bool {
+        self.u8() & 1 == 1
+    }
+    /// 0..=max
+    pub fn n(&mut self, max: usize) -> usize {
+        if max == 0 {
+            0
+        } else if max < 256 {
+            self.u8() as usize % (max + 1)
+        } else {
+            self.u32() as usize % (max + 1)
+        }
+    }
+    pub fn range(&mut self, lo: u64, hi: u64) -> u64 {
+        lo + self.u64() % (hi - lo + 1)
+    }
+    pub fn pick<T: Clone>(&mut self, xs: &[T]) -> T {
+        xs[self.n(xs.len() - 1)].clone()
+    }
+    /// number biased to the u64 boundaries
+    pub fn special_u64(&mut self) -> u64 {
+        match self.n(5) {
+            0 => self.n(10) as u64,
+            1 => [1u64 << 24, (1 << 32) - 1, 1 << 32, (1 << 63) - 1, 1 << 63, u64::MAX - 1, u64::MAX][self.n(6)],
+            2 => self.range(0, 1000),
+            _ => self.u64(),
+        }
+    }
+    /// a line of single-width text (plus zero-width SGR), width biased around multiples of `cols`
+    pub fn line(&mut self, cols: usize) -> String {
+        match self.n(9) {
+            0 | 1 => String::new(),
+            2 | 3 | 4 => {
+                let k = self.n(3);
+                let d = self.n(2) as i64 - 1;
+                "x".repeat(((k * cols) as i64 + d).max(0) as usize)
+            }
+            5 => "\x1b[1m\x1b[0m".to_string(),
+            _ => {
+                let mut s = String::new();
+                for _ in 0..self.n(3) {
+                    match self.n(7) {
+                        0 => s.push_str("\x1b[31m"),
+                        1 => s.push_str("\x1b[0m"),
+                        2 => s.push('\u{e9}'),
+                        _ => {
+                            for _ in 0..=self.n(5) {
+                                s.push(self.pick(&['a', 'b', 'Z', '0', ' ', '.', ':', '#', '=', '-']));
+                            }
+                        }
+                    }
+                }
+                s
+            }
+        }
+    }
+    /// 1-3 lines
+    pub fn text(&mut self, cols: usize) -> String {
+        match self.n(8) {
+            0 | 1 => {
+                let n = 2 + self.n(1);
+                (0..n).map(|_| self.line(cols)).collect::<Vec<_>>().join("\n")
+            }
+            2 => format!("{}\n", self.line(cols)),
+            _ => self.line(cols),
+        }
+    }
+    pub fn short(&mut self, cols: usize) -> String {
+        match self.n(8) {
+            0 | 1 => String::new(),
+            2 | 3 => "m".repeat(cols.saturating_sub(6) + self.n(9)),
+            _ => (0..=self.n(4)).map(|_| self.pick(&['a', 'b', 'c', 'x', 'y'])).collect(),
+        }
+    }
+}
+
+// ---------------------------------------------------------------------------------------------
 // parts
 
 #[derive(Default, Debug, Clone)]
@@ -194,6 +302,9 @@ pub trait Part: Send + Sync {
     fn fuzz(&self, _data: &[u8], _known: &[KnownFinding]) -> Option<(Value, String)> {
         None
     }
+    fn has_fuzz_decoder(&self) -> bool {
+        false
+    }
 }
 
 /// A generated-case part: strategy + pure run function.
@@ -208,6 +319,8 @@ pub struct Gen<C> {
     /// labels that must be hit at least once, else the generator is considered vacuous (exit 2)
     pub essential: &'static [&'static str],
     pub workers: usize,
+    /// byte decoder for the coverage-guided (libFuzzer) targets
+    pub decode: Option<fn(&mut crate::runner::FuzzInput) -> C>,
 }
 
 pub fn no_signature<C>(_: &C) -> Option<&'static str> {
@@ -454,12 +567,9 @@ where
     }
 
     fn fuzz(&self, data: &[u8], known: &[KnownFinding]) -> Option<(Value, String)> {
-        use proptest::strategy::{Strategy, ValueTree};
-        use proptest::test_runner::{RngAlgorithm, TestRng};
-        let rng = TestRng::from_seed(RngAlgorithm::PassThrough, data);
-        let mut runner = TestRunner::new_with_rng(Config { failure_persistence: None, ..Config::default() }, rng);
-        let strategy = (self.strategy)(Tier::Quick);
-        let c = strategy.new_tree(&mut runner).ok()?.current();
+        let decode = self.decode?;
+        let mut input = FuzzInput::new(data);
+        let c = decode(&mut input);
         match run_guarded(self.run, &c) {
             Ok(_) => None,
             Err(f) => {
@@ -469,6 +579,10 @@ where
                 Some((serde_json::to_value(&c).unwrap_or(Value::Null), format!("[{}] {}", f.kind, f.msg)))
             }
         }
+    }
+
+    fn has_fuzz_decoder(&self) -> bool {
+        self.decode.is_some()
     }
 }
 
